@@ -739,3 +739,42 @@ def where(c, a, b):
             return Lane(ir.ite(c.t, ta, tb), ref.n, ref.mask)
         return Sym(ir.ite(c.t, to_term(a), to_term(b)))
     return a if c else b
+
+
+class UFun(object):
+    """an uninterpreted (possibly lane-specific) real function handed to the code under verification as a callable:
+    f(x)[i] = F(i, x[i]).  The hypotheses on F (monotone, ...) are axioms instantiated on the applications that occur."""
+    def __init__(self, name, per_lane=True):
+        self.name, self.per_lane = name, per_lane
+        self.calls = []
+
+    def apply_term(self, t, scalar=False):
+        return ir.uf(self.name, [ir.ZERO if (scalar or not self.per_lane) else IDX, t])
+
+    def sym_call(self, interp, args, kwargs):
+        x = args[0]
+        if isinstance(x, Lane):
+            r = Lane(self.apply_term(x.t), x.n, x.mask)
+        elif isinstance(x, (Sym, int, float)):
+            r = Sym(self.apply_term(to_term(x), scalar=True))
+        else:
+            raise paths.Unsupported('uninterpreted function applied to %r' % (x,))
+        return r
+
+    def applications(self, terms):
+        out = set()
+        for t in terms:
+            for s in ir.subterms(t):
+                if s.op == 'uf' and s.args[0] == self.name:
+                    out.add(s)
+        return out
+
+    def monotone_axioms(self, terms):
+        """ground instances of  x <= y => F(i,x) <= F(i,y)  for the applications occurring in `terms`"""
+        apps = sorted(self.applications(terms), key=lambda a: ir.show(a))
+        ax = []
+        for a in apps:
+            for b in apps:
+                if a is not b and a.args[1] is b.args[1]:
+                    ax.append(ir.implies(ir.le(a.args[2], b.args[2]), ir.le(a, b)))
+        return ax
